@@ -490,6 +490,31 @@ def run(ck, facts):
     c08.run(C.SubCheck(ck, "R5", "", ["R8"], key_re=r"[Oo]ption"), facts)
     # an Option<primitive> is never classified as its payload (C08.R9): a one-field struct holding one keeps its {payload, is_ok} record and its receive buffer
     c08.run(C.SubCheck(ck, "R5", "", ["R9"], key_re=r"classifies|classification"), facts)
+    # C++ -> C: an optional argument is present exactly when the std::optional is engaged -- the flag of the record is `x.has_value()` and nothing else, for every payload kind
+    cf = tool.fn("cpp::ty::TyGenContext::gen_cpp_to_c_for_type", optional=True)
+    import flow as _fl10
+    nopt = 0
+    if cf is not None:
+        cdefs = dict(_fl10.defs_of(cf))
+        for m_ in C.walk(C.fn_body(cf)):
+            if m_.get("k") != "macro" or m_.get("name") != "format":
+                continue
+            canon = C.macro_fmt_canon(m_) or ""
+            if ", true" not in canon or ", false" not in canon or " ? " not in canon:
+                continue
+            nopt += 1
+            cond = canon.split(" ? ", 1)[0].strip()
+            conds = [cond]
+            mph = re.fullmatch(r"\{(\w+)\}", cond)
+            if mph:
+                lid = next((lid_ for nm_, lid_ in C.free_locals(m_["inner"]) if nm_ == mph.group(1)), None)
+                d_ = cdefs.get(lid)
+                conds = [C.macro_fmt_canon(x) or "" for x in C.walk(d_[1]) if x.get("k") == "macro" and x.get("name") == "format"] if d_ and d_[0] == "expr" else []
+            okc = bool(conds) and all(re.fullmatch(r"\(?\{[\w.]+\}\.has_value\(\)\)?", c_) for c_ in conds)
+            ck.expect(okc, "R5", "cpp::gen_cpp_to_c_for_type/option-flag-is-has_value#%d" % nopt, "x.has_value()", "the C++ -> C conversion of an optional sets is_ok from %s: an engaged optional "
+                      "(e.g. Some(\"\"), Some(&[])) can reach Rust as None" % conds, C.loc(cf, m_.get("ln")))
+    if nopt < 1:
+        ck.bad("R5", "cpp::gen_cpp_to_c_for_type/option-flag/floor", "no option record construction found in gen_cpp_to_c_for_type (1 counted)")
     # the JS size / alignment formula of an option record (payload then flag, C08.R2)
     c08.run(C.SubCheck(ck, "R5", "", ["R2"], key_re=r"DiplomatOption"), facts)
     # C++: every fallible / nullable return shape tests the flag before it builds the value (C02.R4)
